@@ -7,7 +7,7 @@
    A Python set is its iteration order (a list); "independent of hash randomisation" is
    invariance under every permutation of that list. *)
 From Coq Require Import Permutation.
-From MV Require Import Base.Strs FS.Replace Determ.Model Determ.DepFile Determ.Proofs Determ.ReplaceProofs Determ.DepFileProofs.
+From MV Require Import Base.Strs FS.Replace Determ.Model Determ.DepFile Determ.PkgConfig Determ.Proofs Determ.ReplaceProofs Determ.DepFileProofs Determ.PkgConfigProofs.
 
 (* ---- byte-identical generated text, independent of set iteration order ---- *)
 
@@ -48,6 +48,27 @@ Theorem C06_depfile_dependencies_order_independent : forall df df' fuel fuel' na
   get_all_dependencies fuel df name = Some R -> get_all_dependencies fuel' df' name = Some R' -> R = R'.
 Proof. exact get_all_dependencies_order_independent. Qed.
 Print Assumptions C06_depfile_dependencies_order_independent.
+
+(* generated pkg-config files: the Requires / Requires.private lines do not depend on the
+   iteration order of any version_reqs set (pkgconfig.py:337-345, 583-587) *)
+Theorem C06_pkgconfig_requires_order_independent : forall vr vr' pub priv,
+  same_depfile vr vr' -> requires_lines vr pub priv = requires_lines vr' pub priv.
+Proof. exact requires_lines_order_independent. Qed.
+Print Assumptions C06_pkgconfig_requires_order_independent.
+
+(* ... and the duplicate removal behind Requires / Libs / Cflags only asks its `exclude` set for
+   membership (pkgconfig.py:347-412, string items) *)
+Theorem C06_pkgconfig_remove_dups_order_independent : forall whole whole' l,
+  Permutation whole whole' -> remove_dups whole l = remove_dups whole' l.
+Proof. exact remove_dups_order_independent. Qed.
+Print Assumptions C06_pkgconfig_remove_dups_order_independent.
+
+Theorem C06_pkgconfig_requires_deduplicated : forall whole l,
+  let r := remove_dups whole l in
+  NoDup (pub_reqs r) /\ (forall x, In x (pub_reqs r) <-> In x (pub_reqs l) /\ ~ In x whole)
+  /\ (forall x, In x (pub_reqs r) -> ~ In x (priv_reqs r)).
+Proof. exact remove_dups_requires_disjoint. Qed.
+Print Assumptions C06_pkgconfig_requires_deduplicated.
 
 (* exe-wrapper pickle names: the digest pre-image, hence the command line in build.ninja, does
    not depend on the order in which the environment dict was filled (backends.py:809-827) *)
